@@ -129,6 +129,7 @@ func runC06(seed int64, n int, dir string, _ []string) {
 	defer pr.Close()
 	zoneLaws(o)
 	floatTexts(g, o, 2*n)
+	dateTexts(g, o, 2*n)
 
 	// exhaustive Kleene tables against min/max/negation, on the real ternary package
 	tv := []ternary.Value{ternary.FALSE, ternary.UNKNOWN, ternary.TRUE}
